@@ -280,7 +280,11 @@ class ModeDReader(MeterReaderBase[DataReadout]):
         # Bytes consumed by previous calls are not needed any more.
         self._buffer.trim_buffer_to_current_position()
 
-        if len(self._buffer) > 8191:
+        if len(self._buffer) > 8191 or len(self._raw_data) > 8191:
+            # Line or readout is too long to be valid. Discard it and hunt for next start character.
+            if len(self._buffer) > 8191:
+                # The too long line may itself begin with the start character.
+                self._buffer.skip(1)
             self._is_int_hunt_mode = True
             self._raw_data.clear()
             self._buffer.trim_buffer_to_flag_or_end()
@@ -337,6 +341,10 @@ class _ReaderBuffer:
     def extend(self, data_chunk: bytes) -> None:
         """Add bytes to buffer."""
         self._buffer.extend(data_chunk)
+
+    def skip(self, count: int) -> None:
+        """Skip bytes in buffer."""
+        self._buffer_pos = min(self._buffer_pos + count, len(self._buffer))
 
     def trim_buffer_to_current_position(self) -> None:
         """Trim buffer to current position."""
